@@ -38,6 +38,16 @@ for d in sorted(os.listdir(SEEDS)):
 
 def run(job):
     d, c = job
+    lg = "/tmp/seed/logs/run-%s-%s.log" % (d, c)
+    if os.environ.get("SKIP_DONE") and os.path.exists(lg):
+        txt = open(lg).read()
+        done = re.search(r"^(OK property|VIOLATION property|INCONCLUSIVE )", txt, re.M)
+        if done:
+            nv = len(re.findall(r"^VIOLATION", txt, re.M))
+            rc = 1 if nv else (2 if re.search(r"^INCONCLUSIVE", txt, re.M) else 0)
+            role = re.search(r"^  role=(\S+)", txt, re.M)
+            return {"seed": d, "check": c, "rc": rc, "caught": rc == 1, "first_role": role.group(1).rstrip(":") if role else None,
+                    "line": "seed=%s check=%s tier=quick rc=%d %d violation(s) (from the stored log)" % (d, c, rc, nv)}
     p = subprocess.run([os.path.join(HERE, "tools", "run_seeded.sh"), d, c], stdout=subprocess.PIPE, stderr=subprocess.STDOUT, text=True)
     line = p.stdout.strip().split("\n")[0] if p.stdout.strip() else ""
     m = re.search(r"rc=(\d+) (\d+) violation", line)
